@@ -13,7 +13,11 @@ def operands():
             ('bool', True), ('str', 'Hello, World!'), ('str_case', 'hello world'), ('str2', 'abc'), ('empty', ''),
             ('list', [1, 2]), ('list2', [1, 2, 3]), ('tuple', (1, 2)), ('dict', {'a': 1}), ('set', {1}), ('set2', {1, 2}),
             ('none', None), ('nested', [1.0, (2, 'X')]), ('nested2', [1.0004, (2, 'x')]), ('money', Money(3)),
-            ('huge', 10 ** 400)]
+            ('huge', 10 ** 400),
+            # same keys in another insertion order, values equal only through the tolerance / crossed values
+            ('dict_ab', {'apple': 1.0001, 'pear': 2}), ('dict_ba', {'pear': 2, 'apple': 1.0}),
+            ('dict_crossed', {'pear': 1.0, 'apple': 2.0001}), ('dict_text', {'k': 'Hello, World!', 'j': 2}),
+            ('dict_text2', {'j': 2, 'k': 'hello world'})]
 
 
 class Money:
